@@ -4,6 +4,8 @@ import (
 	"fmt"
 	"os"
 
+	"golang.org/x/tools/go/ssa"
+
 	"wrverif/core"
 )
 
@@ -12,29 +14,16 @@ func main() {
 	if err != nil {
 		panic(err)
 	}
-	for _, pkg := range []string{"svg", "images", "html/document", "html/boxes", "html/tree", "css/validation", "css/parser", "css/counters", "text", "text/draw", "backend", "matrix", "utils", "html/layout"} {
-		ups := p.ExtremumUpdates(pkg, nil)
-		bad := 0
-		for _, u := range ups {
-			if !u.Consistent {
-				bad++
-				fmt.Println("EXTREMUM", pkg, p.Pos(u.Stmt.Pos()), u.Text)
+	for _, fn := range p.ModFuncs {
+		core.Instrs(fn, func(in ssa.Instruction) {
+			sl, ok := in.(*ssa.Slice)
+			if !ok || sl.High == nil {
+				return
 			}
-		}
-		cs := p.SideConds(pkg, nil)
-		for _, s := range cs {
-			if !s.Consistent {
-				fmt.Println("SIDECOND", pkg, p.Pos(s.Expr.Pos()), s.Kinds, s.Text)
+			if k, isK := core.ConstInt(sl.High); !isK || k != 0 {
+				return
 			}
-		}
-		ss := p.SideSums(pkg, nil)
-		nb := 0
-		for _, s := range ss {
-			if !s.Consistent {
-				nb++
-				fmt.Println("SIDESUM", pkg, p.Pos(s.Expr.Pos()), s.Kinds, s.Text)
-			}
-		}
-		fmt.Println(pkg, "extremum", len(ups), bad, "sideconds", len(cs), "sidesums", len(ss), nb)
+			fmt.Println("RESET", p.Pos(sl.Pos()), core.FuncName(fn), sl.X.Name(), sl.X.String())
+		})
 	}
 }
